@@ -25,8 +25,8 @@ import (
 type c17Case struct {
 	Transport string `json:"transport"`
 	Op        string `json:"op"`      // read | readbytes | write | receive | call | send
-	Mode      string `json:"mode"`    // cancel | deadline
-	Instant   string `json:"instant"` // before | idle | partial | after
+	Mode      string `json:"mode"`    // cancel | deadline | cancel-far (explicit cancel of a context that also has a distant deadline)
+	Instant   string `json:"instant"` // before | idle | partial | after | idle-close (cancel, then the connection is closed at once)
 	DelayUS   int    `json:"delay_us"`
 }
 
@@ -150,6 +150,11 @@ func c17One(r *fw.Run, c *c17Case, idx int) {
 	var ctx context.Context
 	var cancel context.CancelFunc
 	switch {
+	case c.Mode == "cancel-far":
+		ctx, cancel = context.WithTimeout(context.Background(), time.Hour)
+		if c.Instant == "before" {
+			cancel()
+		}
 	case c.Mode == "cancel":
 		ctx, cancel = context.WithCancel(context.Background())
 		if c.Instant == "before" {
@@ -238,13 +243,16 @@ func c17One(r *fw.Run, c *c17Case, idx int) {
 		resCh <- o
 	}()
 	cancelIssued := time.Now()
-	if c.Mode == "cancel" && c.Instant != "before" {
+	if (c.Mode == "cancel" || c.Mode == "cancel-far") && c.Instant != "before" {
 		if c.Instant == "after" {
 			// wait for completion first
 		} else {
 			time.Sleep(time.Duration(200+c.DelayUS) * time.Microsecond)
 			cancel()
 			cancelIssued = time.Now()
+			if c.Instant == "idle-close" {
+				e.libClose() // the caller gives up on the connection right after cancelling
+			}
 		}
 	}
 	var res opres
@@ -265,6 +273,16 @@ func c17One(r *fw.Run, c *c17Case, idx int) {
 		return
 	}
 	r.Count("operations", 1)
+	if c.Instant == "idle-close" {
+		if res.err == nil {
+			report("no-error-after-context-end", "cancelled and closed, but the operation returned success")
+		}
+		if n, sample := waitNoCtxio(3 * time.Second); n > 0 {
+			report("goroutine-left-behind", "the context was cancelled and the connection closed right afterwards: %d goroutines are still inside the library's connection:\n%s", n, clip(sample, 1500))
+		}
+		r.Count("goroutine_checks", 1)
+		return
+	}
 	if c.Instant == "after" {
 		if res.err != nil && c.Mode == "deadline" && ctxErrClass(res.err) && time.Since(started) >= 150*time.Millisecond {
 			r.Inconclusive("machine too slow: the operation did not complete within its 150 ms deadline")
@@ -456,9 +474,15 @@ func c17Matrix(rng *rand.Rand, reps int) []*c17Case {
 				if (op == "receive" || op == "call" || op == "send") && !client {
 					continue
 				}
-				for _, mode := range []string{"cancel", "deadline"} {
-					for _, inst := range []string{"before", "idle", "partial", "after"} {
+				for _, mode := range []string{"cancel", "deadline", "cancel-far"} {
+					for _, inst := range []string{"before", "idle", "partial", "after", "idle-close"} {
 						if inst == "partial" && (op == "read" || op == "write" || op == "send") {
+							continue
+						}
+						if inst == "idle-close" && (mode == "deadline" || client) {
+							continue
+						}
+						if mode == "cancel-far" && (inst == "after" || inst == "before") {
 							continue
 						}
 						if op == "call" && inst == "before" {
@@ -620,7 +644,7 @@ func c17Service(r *fw.Run, transport string, useListen bool) {
 
 func runC17(r *fw.Run) {
 	rng := rand.New(rand.NewSource(r.Seed*53 + 17))
-	cases := c17Matrix(rng, r.Pick(3, 40))
+	cases := c17Matrix(rng, r.Pick(2, 30))
 	for i, c := range cases {
 		if r.ViolationCount() > 12 {
 			r.Note("stopped after 12 violations: the remaining cases would repeat them slowly")
